@@ -2035,7 +2035,16 @@ class PseudoNetCDFFile(PseudoNetCDFSelfReg, object):
                             [f_.variables[varkey][:] for f_ in fs], axis=axisi)
                     else:
                         continue
-                outvar = outf.copyVariable(var, key=varkey, withdata=False)
+                fill_value = None
+                if (
+                    np.ma.is_masked(outvals) and
+                    not isinstance(var[...], np.ma.MaskedArray)
+                ):
+                    # missing cells in a later file only: the first file's
+                    # variable is no template for the mask
+                    fill_value = outvals.fill_value
+                outvar = outf.copyVariable(var, key=varkey, withdata=False,
+                                           fill_value=fill_value)
                 outvar[...] = outvals
 
         return outf
